@@ -53,6 +53,10 @@ where
     T: Sample<Type = T> + Copy + std::fmt::Debug,
 {
     fn work(&mut self) -> Result<BlockRet> {
+        if self.repeat.done() {
+            // Repeat zero times means not even once.
+            return Ok(BlockRet::EOF);
+        }
         let mut o = self.dst.write_buf()?;
         let sample_size = T::size();
         let have = self.buf.len() / sample_size;
